@@ -504,16 +504,20 @@ static bool CanEnd(lp_id_t me, const void *snapshot)
 	return pred_of(snapshot, me);
 }
 
-static void do_sends(lp_id_t me, simtime_t now, const struct send *sends, int n)
+/* a send with type 0 / payload -1 forwards the type / payload of the event being processed unchanged */
+static void do_sends(lp_id_t me, simtime_t now, const struct send *sends, int n, unsigned cur_ty, const void *cur_pl, unsigned cur_sz, int cur_pid)
 {
 	for(int j = 0; j < n; ++j) {
 		const struct send *sd = &sends[j];
 		lp_id_t dest = (me + (lp_id_t)((int)me < M.split ? sd->drule : sd->drule2)) % (lp_id_t)M.nlps;
+		unsigned ty = sd->ty ? (unsigned)sd->ty : cur_ty;
+		int pid = sd->pid >= 0 ? sd->pid : cur_pid;
+		const void *pl = sd->pid >= 0 ? (M.psize[sd->pid] ? M.pbytes[sd->pid] : NULL) : cur_pl;
+		unsigned sz = sd->pid >= 0 ? (unsigned)M.psize[sd->pid] : cur_sz;
 		if(serial_mode)
-			EMIT("\"e\":\"Sched\",\"lp\":%d,\"d\":%d,\"t\":%ld,\"ty\":%d,\"sz\":%d,\"pid\":%d", (int)me,
-			    (int)dest, t2i(now + sd->delay), sd->ty, M.psize[sd->pid], sd->pid);
-		ScheduleNewEvent(dest, now + sd->delay, (unsigned)sd->ty, M.psize[sd->pid] ? M.pbytes[sd->pid] : NULL,
-		    (unsigned)M.psize[sd->pid]);
+			EMIT("\"e\":\"Sched\",\"lp\":%d,\"d\":%d,\"t\":%ld,\"ty\":%u,\"sz\":%u,\"pid\":%d", (int)me,
+			    (int)dest, t2i(now + sd->delay), ty, sz, pid);
+		ScheduleNewEvent(dest, now + sd->delay, ty, sz ? pl : NULL, sz);
 	}
 }
 
@@ -536,7 +540,7 @@ static void ProcessEvent(lp_id_t me, simtime_t now, unsigned ty, const void *pl,
 			     "\"dgA\":%ld,\"dgB\":%ld,\"pred\":%d",
 			    (int)me, LP_INIT, dg.a, dg.b, pred_of(st, me));
 		}
-		do_sends(me, 0, M.init[me], M.ninit[me]);
+		do_sends(me, 0, M.init[me], M.ninit[me], 1, NULL, 0, 0);
 		return;
 	}
 	if(ty == LP_FINI) {
@@ -581,7 +585,7 @@ static void ProcessEvent(lp_id_t me, simtime_t now, unsigned ty, const void *pl,
 		    (int)me, t2i(now), ty, sz, pid, last_disp.u16, (int)st->s, (int)st->cnt, dg.a, dg.b, pred_of(st, me));
 	}
 	if(may_send)
-		do_sends(me, now, o->sends, o->nsends);
+		do_sends(me, now, o->sends, o->nsends, ty, pl, sz, pid);
 
 	if(stop_lp == (int)me && stop_cnt == (int)st->cnt)
 		RootsimStop();
